@@ -194,6 +194,20 @@ def run_cases(prop_module_name, cases, cpu=120, wall=900, nproc=None, progress=N
         t.start()
     for t in ths:
         t.join()
+    # one retry, in fresh workers, for cases whose worker died or hit the wall-clock watchdog (a loaded
+    # machine must not turn into a verdict); what fails twice stays inconclusive
+    again = [i for i, r in enumerate(results) if r and r.get("status") in ("worker_died", "inconclusive") and not r.get("retried")]
+    if again and len(again) <= max(20, len(cases) // 50):
+        for i in again:
+            q.put((i, cases[i]))
+        ths = [threading.Thread(target=loop, daemon=True) for _ in range(min(nproc, len(again)))]
+        for t in ths:
+            t.start()
+        for t in ths:
+            t.join()
+        for i in again:
+            if results[i] is not None:
+                results[i]["retried"] = True
     return results
 
 
